@@ -14,6 +14,7 @@ import YtkModel.Codec
 import YtkProofs.Builder
 import YtkProofs.LensIdx
 import YtkProofs.Rebuild
+import YtkProofs.ValidB
 
 namespace Ytk
 
@@ -645,5 +646,164 @@ theorem brun_eq_specRun : ∀ (h : List BOp) (d : AMap Node), (Node.cont d).Vali
         (fun o ho => hh o (List.mem_cons_of_mem _ ho))
     | err => rfl
     | panic => rfl
+
+/-! ### structured histories: paths are rendered, never parsed -/
+
+theorem segOfComp_compName {c : Comp} (h : SafeKey c.1) : segOfComp (compName c) = compSteps c := by
+  rw [segOfComp_eq]
+  unfold segBase segIdx compName
+  rw [parseSeg_compStr h]
+  rfl
+
+theorem renderFrom_single (c : Comp) : renderFrom "" [c] = compName c := by
+  have h : (renderFrom "" [c]).toList = compStr c := by
+    simp only [renderFrom, List.foldl_cons, List.foldl_nil]
+    exact extend_toList_empty c
+  rw [← String.ofList_toList (s := renderFrom "" [c]), h]
+  rfl
+
+theorem flatMap_congr' {α β : Type} {f g : α → List β} : ∀ (l : List α), (∀ x ∈ l, f x = g x) →
+    l.flatMap f = l.flatMap g
+  | [], _ => rfl
+  | a :: l, h => by
+    simp only [List.flatMap_cons]
+    rw [h a (List.mem_cons_self ..), flatMap_congr' l (fun x hx => h x (List.mem_cons_of_mem _ hx))]
+
+/-- parse ∘ render = id on steps: the path string `ToPath` / `ToListPath` build from structured
+    components over path-safe keys denotes exactly their steps -/
+theorem pathStepsOf_renderFrom {cs : List Comp} (hne : cs ≠ []) (hs : ∀ x ∈ cs, SafeKey x.1) :
+    pathStepsOf (renderFrom "" cs) = steps cs := by
+  cases cs with
+  | nil => exact absurd rfl hne
+  | cons c cs =>
+    unfold pathStepsOf toSteps steps
+    rw [splitPath_renderFrom c cs hs, List.flatMap_map]
+    apply flatMap_congr'
+    intro x hx
+    exact segOfComp_compName (hs x hx)
+
+theorem segOfComp_renderFrom {c : Comp} (h : SafeKey c.1) : segOfComp (renderFrom "" [c]) = compSteps c := by
+  rw [renderFrom_single, segOfComp_compName h]
+
+/-- a builder call with STRUCTURED paths: a component is a key with index groups, a path a list of
+    components -/
+inductive POp where
+  | addValue (c : Comp) (v : Node)
+  | addValueAt (cs : List Comp) (v : Node)
+  | addContainer (c : Comp)
+  | addList (c : Comp)
+  | remove (c : Comp)
+  | removeAt (cs : List Comp)
+  | listSet (cs : List Comp) (i : Nat) (v : Node)
+  | listAppend (cs : List Comp) (v : Node)
+  | listClear (cs : List Comp)
+  | listMustSet (cs : List Comp) (i : Nat) (v : Node)
+  | compact
+  deriving Repr
+
+/-- the call the Go program makes: path strings built by `ToPath` / `ToListPath` (`renderFrom`) -/
+def POp.render : POp → BOp
+  | .addValue c v => .addValue (renderFrom "" [c]) v
+  | .addValueAt cs v => .addValueAt (renderFrom "" cs) v
+  | .addContainer c => .addContainer (renderFrom "" [c])
+  | .addList c => .addList (renderFrom "" [c])
+  | .remove c => .remove (renderFrom "" [c])
+  | .removeAt cs => .removeAt (renderFrom "" cs)
+  | .listSet cs i v => .listSet (renderFrom "" cs) i v
+  | .listAppend cs v => .listAppend (renderFrom "" cs) v
+  | .listClear cs => .listClear (renderFrom "" cs)
+  | .listMustSet cs i v => .listMustSet (renderFrom "" cs) i v
+  | .compact => .compact
+
+/-- the edit of the plain tree: no string anywhere -/
+def POp.spec : POp → SOp
+  | .addValue c v => .set (compSteps c) (encodeNode v)
+  | .addValueAt cs v => .set (steps cs) (encodeNode v)
+  | .addContainer c => .set (compSteps c) (.obj [])
+  | .addList c => .set (compSteps c) (.arr [])
+  | .remove c => .remove (compSteps c)
+  | .removeAt cs => .remove (steps cs)
+  | .listSet cs i v => .listSet (steps cs) i (encodeNode v)
+  | .listAppend cs v => .listAppend (steps cs) (encodeNode v)
+  | .listClear cs => .listClear (steps cs)
+  | .listMustSet cs i v => .listMustSet (steps cs) i (encodeNode v)
+  | .compact => .compact
+
+def POp.comps : POp → List Comp
+  | .addValue c _ | .addContainer c | .addList c | .remove c => [c]
+  | .addValueAt cs _ | .removeAt cs | .listSet cs _ _ | .listAppend cs _ | .listClear cs | .listMustSet cs _ _ => cs
+  | .compact => [("k", [])]
+
+def POp.value : POp → Node
+  | .addValue _ v | .addValueAt _ v | .listSet _ _ v | .listAppend _ v | .listMustSet _ _ v => v
+  | _ => Node.null
+
+/-- THE DOMAIN of a structured call: a non-empty path, path-safe keys (non-empty, no `.`, `[`, `]`),
+    a valid value (sorted unique keys, none ending in an index group) -/
+def POp.Ok (op : POp) : Prop := op.comps ≠ [] ∧ (∀ x ∈ op.comps, SafeKey x.1) ∧ op.value.Valid
+
+def safeKeyB (k : String) : Bool :=
+  !k.toList.isEmpty && k.toList.all fun c => c != '.' && c != '[' && c != ']'
+
+theorem safeKeyB_sound {k : String} (h : safeKeyB k = true) : SafeKey k := by
+  simp only [safeKeyB, Bool.and_eq_true, Bool.not_eq_true', List.all_eq_true, bne_iff_ne, ne_eq] at h
+  refine ⟨?_, fun c hc => ?_⟩
+  · intro e; rw [e] at h; simp at h
+  · have := h.2 c hc
+    exact ⟨this.1.1, this.1.2, this.2⟩
+
+/-- the domain, as a program -/
+def POp.okB (op : POp) : Bool := !op.comps.isEmpty && op.comps.all (fun x => safeKeyB x.1) && op.value.validB
+
+theorem POp.okB_sound {op : POp} (h : op.okB = true) : op.Ok := by
+  simp only [POp.okB, Bool.and_eq_true, Bool.not_eq_true', List.all_eq_true] at h
+  refine ⟨?_, fun x hx => safeKeyB_sound (h.1.2 x hx), Node.validB_sound _ h.2⟩
+  intro e; rw [e] at h; simp at h
+
+/-- a start document and a structured history inside the domain, as a program -/
+def inDomB (d : AMap Node) (h : List POp) : Bool := (Node.cont d).validB && h.all POp.okB
+
+theorem inDomB_sound {d : AMap Node} {h : List POp} (hd : inDomB d h = true) :
+    (Node.cont d).Valid ∧ ∀ op ∈ h, op.Ok := by
+  simp only [inDomB, Bool.and_eq_true, List.all_eq_true] at hd
+  exact ⟨Node.validB_sound _ hd.1, fun op ho => POp.okB_sound (hd.2 op ho)⟩
+
+theorem renderFrom_ne_empty' {cs : List Comp} (hne : cs ≠ []) (hs : ∀ x ∈ cs, SafeKey x.1) :
+    renderFrom "" cs ≠ "" := by
+  cases cs with
+  | nil => exact absurd rfl hne
+  | cons c cs => exact renderFrom_ne_empty c cs hs
+
+theorem POp.toStructured_render {op : POp} (h : op.Ok) : toStructured op.render = op.spec := by
+  obtain ⟨hne, hs, _⟩ := h
+  cases op <;>
+    simp only [POp.render, POp.spec, toStructured, POp.comps] at hne hs ⊢ <;>
+    first
+      | rfl
+      | rw [segOfComp_renderFrom (hs _ (List.mem_cons_self ..))]
+      | rw [pathStepsOf_renderFrom hne hs]
+
+theorem POp.render_ok {op : POp} (h : op.Ok) : op.render.ValuesValid ∧ op.render.PathOk := by
+  obtain ⟨hne, hs, hv⟩ := h
+  cases op <;>
+    simp only [POp.render, BOp.ValuesValid, BOp.PathOk, POp.comps, POp.value] at hne hs hv ⊢ <;>
+    first
+      | exact ⟨trivial, trivial⟩
+      | exact ⟨hv, trivial⟩
+      | exact ⟨hv, renderFrom_ne_empty' hne hs⟩
+      | exact ⟨trivial, renderFrom_ne_empty' hne hs⟩
+
+/-- structured histories: rendering the paths, running the builder's string-path algorithm and taking
+    AsMap is running the structured edits on the plain tree -/
+theorem brun_render_eq_specRun (d : AMap Node) (h : List POp) (hd : (Node.cont d).Valid) (hh : ∀ op ∈ h, op.Ok) :
+    (brun d (h.map POp.render)).map encDoc = specRun (encDoc d) (h.map POp.spec) := by
+  rw [brun_eq_specRun (h.map POp.render) d hd, List.map_map]
+  · congr 1
+    apply List.map_congr_left
+    intro op ho
+    exact POp.toStructured_render (hh op ho)
+  · intro op ho
+    obtain ⟨o, ho', rfl⟩ := List.mem_map.mp ho
+    exact POp.render_ok (hh o ho')
 
 end Ytk
